@@ -1216,9 +1216,18 @@ def m_forall(ip, args, kwargs):
         return wrap_bool(z3.And(*conj)) if conj else True
     j = z3.Int(ctx.fresh_name('j!bound'))
     ctx.no_fork += 1
+    # inside the body the bound variable is in range: conditions the body branches on (e.g. "index is not negative") are decided with that
+    # knowledge; the range is not added to the path condition (it is the antecedent of the quantified formula below)
+    pushed = False
     try:
+        if ctx.solver is not None:
+            ctx.solver.push()
+            ctx.solver.add(z3.And(int_term(lo) <= j, j < int_term(hi)))
+            pushed = True
         body = truth_term(ctx, ip.call(pred, [SInt(j)]))
     finally:
+        if pushed:
+            ctx.solver.pop()
         ctx.no_fork -= 1
     if isinstance(body, bool):
         body = z3.BoolVal(body)
